@@ -18,8 +18,8 @@ pub const SPEC: PropSpec = PropSpec {
 	assumptions: &[
 		"reference encoder (engine/src/refavro/value.rs) produces only spec-valid encodings; Avro binary under a fixed schema is prefix-free, so every strict prefix of a valid non-empty encoding is invalid",
 	],
-	cases: (60_000, 5_000_000),
-	secs: (45, 600),
+	cases: (50_000_000, 4_000_000_000),
+	secs: (30, 600),
 	required: &["valid_decoded_ok", "malformations_rejected", "prefixes_rejected", "layouts_with_negative_blocks"],
 	run_case,
 	once: None,
